@@ -87,25 +87,26 @@ type vfStep struct {
 }
 
 type vfSession struct {
-	beforeStart    func() // optional: runs in setupPair after gathering, before the agents are started
-	afterRegather  func() // optional: runs in coordinatedRestart after both sides regathered, before remote credentials are set again
-	forgeValidTCP  bool   // C02: the next forged message is a valid check from a new TCP peer address to a TCP passive candidate
-	peerMute       bool   // C03: the scripted peer withholds every response
-	forgeUnstarted bool   // C02: forged messages may also be injected into an agent that was not started yet
-	e              *vfEnv
-	r              *vfResult
-	rng            *rand.Rand
-	sw             *vfSwitch
-	A, B           *vfSide
-	P              *vfPeer
-	dataSt         map[*vfSide]*vfDataState
-	steps          []vfStep
-	stepN          int
-	idx            int
-	desc           map[string]any
-	start          time.Time
-	broken         string // set when the harness itself lost quiescence: the run becomes inconclusive
-	mon            struct{ c03, c04, c06, c07 bool }
+	beforeStart      func() // optional: runs in setupPair after gathering, before the agents are started
+	afterRegather    func() // optional: runs in coordinatedRestart after both sides regathered, before remote credentials are set again
+	forgeValidTCP    bool   // C02: the next forged message is a valid check from a new TCP peer address to a TCP passive candidate
+	mappedSignalling bool   // C06: signalled IPv4 candidates are sometimes spelled ::ffff:a.b.c.d
+	peerMute         bool   // C03: the scripted peer withholds every response
+	forgeUnstarted   bool   // C02: forged messages may also be injected into an agent that was not started yet
+	e                *vfEnv
+	r                *vfResult
+	rng              *rand.Rand
+	sw               *vfSwitch
+	A, B             *vfSide
+	P                *vfPeer
+	dataSt           map[*vfSide]*vfDataState
+	steps            []vfStep
+	stepN            int
+	idx              int
+	desc             map[string]any
+	start            time.Time
+	broken           string // set when the harness itself lost quiescence: the run becomes inconclusive
+	mon              struct{ c03, c04, c06, c07 bool }
 	// expectations maintained by workloads
 	noPairPossible bool
 }
@@ -282,7 +283,13 @@ func vfCandAddr(c Candidate) string {
 		return "nil"
 	}
 
-	return c.NetworkType().NetworkShort() + "/" + net.JoinHostPort(c.Address(), strconv.Itoa(c.Port()))
+	// transport addresses are compared canonically: a peer may spell an IPv4 address as ::ffff:a.b.c.d
+	addr := c.Address()
+	if ip, err := netip.ParseAddr(addr); err == nil {
+		addr = ip.Unmap().String()
+	}
+
+	return c.NetworkType().NetworkShort() + "/" + net.JoinHostPort(addr, strconv.Itoa(c.Port()))
 }
 
 func vfCandAP(c Candidate) netip.AddrPort {
@@ -1021,14 +1028,26 @@ func vfSortedKeys(m map[string]bool) []string {
 // vfSignalled builds the candidate the peer is told for local candidate c.
 // mode: "host" (as gathered), "srflx" (public address with raddr), "skip".
 func (s *vfSession) signalled(c Candidate, mode string) (Candidate, error) {
+	// the peer's signalling may spell IPv4 addresses in the IPv4-mapped IPv6 form (same transport address)
+	spell := func(a netip.Addr) string {
+		if s.mappedSignalling && a.Is4() && s.rng.IntN(2) == 0 {
+			return "::ffff:" + a.String()
+		}
+
+		return a.String()
+	}
 	switch mode {
 	case "host":
+		if ap := vfCandAP(c); s.mappedSignalling && ap.IsValid() && ap.Addr().Is4() {
+			return NewCandidateHost(&CandidateHostConfig{Network: c.NetworkType().NetworkShort(), Address: spell(ap.Addr()), Port: c.Port(), Component: 1, TCPType: c.TCPType()})
+		}
+
 		return UnmarshalCandidate(c.Marshal())
 	case "srflx":
 		pub := s.sw.pub(vfCandAP(c))
 
 		return NewCandidateServerReflexive(&CandidateServerReflexiveConfig{
-			Network: c.NetworkType().NetworkShort(), Address: pub.Addr().String(), Port: int(pub.Port()), Component: 1,
+			Network: c.NetworkType().NetworkShort(), Address: spell(pub.Addr()), Port: int(pub.Port()), Component: 1,
 			RelAddr: c.Address(), RelPort: c.Port(),
 		})
 	}
